@@ -9,6 +9,7 @@ import (
 	"errors"
 	"io"
 	nethttp "net/http"
+	"os"
 	"strconv"
 	"time"
 
@@ -30,12 +31,14 @@ type vRT struct {
 	method  string
 	metaLen string
 	source  string
+	sep     string
 }
 
 func (t *vRT) RoundTrip(r *nethttp.Request) (*nethttp.Response, error) {
 	t.asked++
 	t.path, t.method = r.URL.Path, r.Method
 	t.metaLen, t.source = r.Header.Get("X-Sts-Metalen"), r.Header.Get("X-Sts-Srcname")
+	t.sep = r.Header.Get(HeaderSep)
 	if t.fail {
 		return nil, errors.New("connection reset by peer")
 	}
@@ -88,6 +91,9 @@ func H_C08_Transmit(v *verifrt.T) {
 	c.client = newBandwidthLoggingClient(rt, 0, nil)
 	n, err := c.Transmit(bin)
 	v.Assert(rt.asked == 1 && rt.method == "PUT" && rt.path == "/data" && rt.source == "src", "C13 one PUT /data request carrying the source name")
+	v.Assert(rt.sep == string(os.PathSeparator), "C13 the request announces the sender's path separator (names are split on it by the receiver)")
+	hd, _ := bin.EncodeHeader()
+	v.Assert(rt.metaLen == strconv.Itoa(len(hd)), "C13 the request announces the length of the descriptor header")
 	switch {
 	case rt.fail:
 		v.Reach("no-answer")
